@@ -74,6 +74,7 @@ func (p *Parser) Parse() (*Nexus, error) {
 	gap := '-'
 	var taxlabels map[string]bool = nil
 	var names, treestrings, treenames []string
+	var treetables []map[string]string // translation table to apply to each tree
 	var sequences map[string]string
 
 	nexus := NewNexus()
@@ -121,7 +122,17 @@ func (p *Parser) Parse() (*Nexus, error) {
 				taxantax, taxlabels, err = p.parseTaxa()
 			case TREES:
 				// TREES BLOCK
-				treenames, treestrings, err = p.parseTrees()
+				// A file may contain several TREES blocks: we keep the trees of all of them
+				var blocknames, blockstrings []string
+				blocknames, blockstrings, err = p.parseTrees()
+				if treenames == nil {
+					treenames, treestrings = make([]string, 0), make([]string, 0)
+				}
+				for i := range blocknames {
+					treenames = append(treenames, blocknames[i])
+					treestrings = append(treestrings, blockstrings[i])
+					treetables = append(treetables, p.translationTable)
+				}
 			case DATA:
 				// DATA/CHARACTERS BLOCK
 				names, sequences, nchar, ntax, datatype, missing, gap, err = p.parseData()
@@ -191,8 +202,8 @@ func (p *Parser) Parse() (*Nexus, error) {
 				return nil, err
 			}
 			// We translate taxa labels if needed
-			if p.translationTable != nil {
-				if err2 := t.Rename(p.translationTable); err2 != nil {
+			if treetables[i] != nil {
+				if err2 := t.Rename(treetables[i]); err2 != nil {
 					return nil, err2
 				}
 			}
